@@ -4,7 +4,6 @@ import (
 	"fmt"
 	"reflect"
 	"sort"
-	"unsafe"
 )
 
 // MapKeys returns the keys of m in an order that is a function of the tape
@@ -33,8 +32,8 @@ func MapKeys[K comparable, V any](m map[K]V) []K {
 		sort.Slice(keys, func(i, j int) bool { return reflect.ValueOf(keys[i]).Uint() < reflect.ValueOf(keys[j]).Uint() })
 	case reflect.Ptr, reflect.Chan, reflect.UnsafePointer:
 		ser := func(k K) uint64 {
-			p := unsafe.Pointer(reflect.ValueOf(k).Pointer())
-			n, ok := s.serial[p]
+			p := reflect.ValueOf(k).Pointer()
+			n, ok := s.serial.Get(uint64(p))
 			if !ok {
 				fatal("MapKeys: pointer key %v was never noted at insertion", k)
 			}
@@ -63,10 +62,11 @@ func NoteKey[K any](k K) {
 	v := reflect.ValueOf(k)
 	switch v.Kind() {
 	case reflect.Ptr, reflect.Chan, reflect.UnsafePointer:
-		p := unsafe.Pointer(v.Pointer())
-		if _, ok := s.serial[p]; !ok {
+		p := v.Pointer()
+		if !s.serial.Has(uint64(p)) {
 			s.nserial++
-			s.serial[p] = s.nserial
+			s.serial.Set(uint64(p), s.nserial)
+			s.keep = Push(s.keep, interface{}(k)) // the address must not be reused during the run
 		}
 	}
 }
